@@ -469,13 +469,29 @@ def _check_identity_path(ctx, tag, model, n, mem, ps, kinds, i, allow_zero_cse):
         return "ctor"
     if allow_zero_cse and rv == ("const", 0):
         # return 0 under is_zero(<recursion result>)
+        from .summary import facts_of
+        facts = [f for _, pol0, v0 in ps.conds if isinstance(v0, tuple)
+                 for f in facts_of(v0, pol0)]
         guarded = any(
             isinstance(v, tuple) and v[0] == "call" and v[1] == "is_zero"
             and v[2] and v[2][0][0] == "rec" and pol
-            for _, pol, v in ps.conds)
-        ctx.ob(f"{tag}/return-zero", guarded, loc,
-               "returns 0 only when the mapped child is zero" if guarded else
-               "returns the constant 0 without an is_zero(<mapped child>) guard",
+            for v, pol in facts)
+        # ... and only when the mapped child is not the original child: a
+        # wrapper of a zero child that nothing has changed is returned as it
+        # is (the same object), like every other untouched node
+        changed = any(
+            isinstance(v, tuple) and v[0] == "compare" and len(v[1]) == 1
+            and v[2][0] == "rec" and v[3][0] == v[2][1]
+            and ((v[1][0] == "Is" and not pol) or (v[1][0] == "IsNot" and pol))
+            for v, pol in facts)
+        ctx.ob(f"{tag}/return-zero", guarded and changed, loc,
+               "returns 0 only when the mapped child is zero and differs from "
+               "the original child" if guarded and changed else
+               ("returns the constant 0 without an is_zero(<mapped child>) guard"
+                if not guarded else
+                "returns 0 for a zero child before testing whether the child "
+                "changed at all: IdentityMapper()(CommonSubexpression(0)) is the "
+                "integer 0, not the (equal, identical) wrapper"),
                {})
         return "zero"
     # delegation to the node's own map() with a recursing lambda (multivector)
